@@ -232,10 +232,23 @@ func (c *evalCtx) eval(x Expr) EV {
 		} else {
 			delete(c.bound, n.Var)
 		}
-		if n.Forall {
-			return boolEV(cx.Forall([]*smt.Term{bv}, body))
+		pats := triggerTerms(body, bv)
+		// a trigger select(a, off + k) is fragile (solvers normalise the sum); quantify over the absolute index
+		// j = off + k instead, so that the trigger is select(a, j)
+		if len(pats) == 1 && pats[0].Op == "select" {
+			idx := pats[0].Args[1]
+			if idx.Op == "bvadd" && len(idx.Args) == 2 && idx.Args[1] == bv && !termHas(idx.Args[0], bv) {
+				j := cx.BoundVar(n.Var+".abs", bv.Sort)
+				body = cx.Subst(body, bv, cx.Op("bvsub", bv.Sort, j, idx.Args[0]))
+				body = cx.Subst(body, cx.Op("bvadd", bv.Sort, idx.Args[0], cx.Op("bvsub", bv.Sort, j, idx.Args[0])), j)
+				bv = j
+				pats = triggerTerms(body, bv)
+			}
 		}
-		return boolEV(cx.Not(cx.Forall([]*smt.Term{bv}, cx.Not(body))))
+		if n.Forall {
+			return boolEV(cx.ForallPat([]*smt.Term{bv}, body, pats...))
+		}
+		return boolEV(cx.Not(cx.ForallPat([]*smt.Term{bv}, cx.Not(body), pats...)))
 	}
 	c.fail("unsupported expression %T", x)
 	return EV{}
@@ -411,7 +424,7 @@ func (c *evalCtx) ident(name string) EV {
 	f := c.f
 	// results
 	if c.results != nil {
-		res := f.fn.Signature.Results()
+		res := f.sig.Results()
 		if name == "result" && res.Len() == 1 {
 			return EV{V: c.results[0]}
 		}
@@ -428,18 +441,18 @@ func (c *evalCtx) ident(name string) EV {
 		}
 	}
 	// parameters (entry values: parameters are SSA values, never reassigned in SSA form)
-	for i, p := range f.fn.Params {
-		if p.Name() == name {
+	for i, pn := range f.pnames {
+		if pn == name && i < len(f.params) {
 			return EV{V: f.params[i]}
 		}
 	}
-	if name == "self" && f.fn.Signature.Recv() != nil && len(f.params) > 0 {
+	if name == "self" && f.sig.Recv() != nil && len(f.params) > 0 {
 		return EV{V: f.params[0]}
 	}
 	if strings.HasPrefix(name, "arg") {
 		var k int
 		if _, err := fmt.Sscanf(name, "arg%d", &k); err == nil {
-			if f.fn.Signature.Recv() != nil {
+			if f.sig.Recv() != nil {
 				k++
 			}
 			if k < len(f.params) {
@@ -448,7 +461,7 @@ func (c *evalCtx) ident(name string) EV {
 		}
 	}
 	if c.results != nil && name == "err" {
-		res := f.fn.Signature.Results()
+		res := f.sig.Results()
 		if n := res.Len(); n > 0 && types.Identical(res.At(n-1).Type(), errorType()) {
 			return EV{V: c.results[n-1]}
 		}
@@ -466,7 +479,7 @@ func (c *evalCtx) ident(name string) EV {
 	if t := c.tryType(name); t != nil {
 		return EV{Type: t}
 	}
-	c.fail("unknown identifier %q in %s", name, f.fn)
+	c.fail("unknown identifier %q in %v", name, f.fn)
 	return EV{}
 }
 
@@ -529,6 +542,9 @@ func (c *evalCtx) local(name string) (Val, bool) {
 		}
 	}
 	var best ssa.Value
+	if f.fn == nil {
+		return Val{}, false
+	}
 	for _, b := range f.fn.Blocks {
 		for _, in := range b.Instrs {
 			switch x := in.(type) {
@@ -669,8 +685,8 @@ func (c *evalCtx) selector(n *ESel) EV {
 }
 
 func (c *evalCtx) tryLocalOrParam(name string) (Val, bool) {
-	for i, p := range c.f.fn.Params {
-		if p.Name() == name {
+	for i, pn := range c.f.pnames {
+		if pn == name && i < len(c.f.params) {
 			return c.f.params[i], true
 		}
 	}
@@ -879,6 +895,20 @@ func (c *evalCtx) callExpr(n *ECall) EV {
 		case "bigval":
 			a := c.eval(n.Args[0])
 			return mathEV(e.bigVal(c.st, a.V.Terms[0]))
+		case "rwin": // rwin(r, off, n): the n input bytes at absolute offset off, as a canonical byte string
+			a := c.eval(n.Args[0])
+			off := cx.Extend(c.toMath(c.eval(n.Args[1])), 64, true)
+			ln := cx.Extend(c.toMath(c.eval(n.Args[2])), 64, true)
+			return EV{V: Val{Typ: nil, Terms: []*smt.Term{e.canonWindow(e.ghostGet(c.st, pData, streamKey(a.V)), off, ln)}}}
+		case "win": // win(b): the bytes of slice b as a canonical byte string
+			a := c.eval(n.Args[0])
+			arr := e.heapArr(c.st, elemName(types.Typ[types.Uint8], 0), smt.Array(smt.Int, bytesInner))
+			return EV{V: Val{Typ: nil, Terms: []*smt.Term{e.canonWindow(cx.Select(arr, a.V.Terms[0]), a.V.Terms[1], a.V.Terms[2])}}}
+		case "crc32of": // crc32of(state, bytestring, n): hash/crc32.Update's state function
+			st0 := c.eval(n.Args[0])
+			w := c.eval(n.Args[1])
+			ln := cx.Extend(c.toMath(c.eval(n.Args[2])), 64, true)
+			return EV{V: Val{Typ: types.Typ[types.Uint32], Terms: []*smt.Term{cx.App("crc32.update", smt.BV(32), st0.V.Terms[0], w.V.Terms[0], ln)}}}
 		case "isnil":
 			a := c.eval(n.Args[0])
 			return boolEV(cx.Eq(a.V.Terms[0], cx.IntLit(0)))
@@ -982,14 +1012,39 @@ func (c *evalCtx) callRepo(fn *ssa.Function, recv *Val, argx []Expr) EV {
 		args = append(args, a.V)
 	}
 	info := e.W.fnInfo(fn)
-	if fn.Blocks == nil || info.hasLoop || info.rejects {
-		c.fail("function %s cannot be used in a contract expression (no body / loops)", fn)
+	lct := e.W.Contracts[FuncKey(fn)]
+	if lct != nil && lct.Pure {
+		expand := false
+		if c.f != nil && c.f.engine != nil {
+			if top := topFrame(c.f); top.ct != nil && top.ct.Expand[FuncKey(fn)] {
+				expand = true
+			}
+		}
+		if !expand {
+			var as []*smt.Term
+			for _, a := range args {
+				as = append(as, a.Terms...)
+			}
+			rt := fn.Signature.Results().At(0).Type()
+			v := Val{Typ: rt}
+			for k, so := range e.comps(rt) {
+				v.Terms = append(v.Terms, e.C.App(fmt.Sprintf("fn.%s.%d.%d", FuncKey(fn), 0, k), so, as...))
+			}
+			return EV{V: v}
+		}
+	}
+	if fn.Blocks == nil || info.rejects || (info.hasLoop && (lct == nil || len(lct.Unroll) == 0)) {
+		c.fail("function %s cannot be used in a contract expression (no body / loops without unroll)", fn)
 	}
 	e.quiet++
 	defer func() { e.quiet-- }()
 	scratch := c.st.clone()
 	scratch.Reach = e.C.True()
-	rets, _, _ := e.execFunc(fn, args, nil, scratch, c.f, nil)
+	var parent *frame
+	if c.f != nil && c.f.engine != nil && c.f.order != nil {
+		parent = c.f
+	}
+	rets, _, _ := e.execFunc(fn, args, nil, scratch, parent, lct)
 	if len(rets) == 0 {
 		c.fail("function %s returns nothing", fn)
 	}
@@ -1027,4 +1082,82 @@ func intRange(t types.Type) (*big.Int, *big.Int) {
 		return lo, hi
 	}
 	return big.NewInt(0), new(big.Int).Sub(new(big.Int).Lsh(one, w), one)
+}
+
+// triggerTerms picks instantiation patterns for a quantified body: the innermost array reads (and applications of
+// uninterpreted functions) that mention the bound variable.
+func triggerTerms(body, bv *smt.Term) []*smt.Term {
+	var out []*smt.Term
+	seen := map[int]bool{}
+	var has func(t *smt.Term) bool
+	memo := map[int]bool{}
+	has = func(t *smt.Term) bool {
+		if v, ok := memo[t.ID()]; ok {
+			return v
+		}
+		r := t == bv
+		for _, a := range t.Args {
+			if has(a) {
+				r = true
+			}
+		}
+		memo[t.ID()] = r
+		return r
+	}
+	var walk func(t *smt.Term) bool // reports whether a trigger was found inside t
+	walk = func(t *smt.Term) bool {
+		if !has(t) {
+			return false
+		}
+		found := false
+		for _, a := range t.Args {
+			if walk(a) {
+				found = true
+			}
+		}
+		if found {
+			return true
+		}
+		if t.Op == "select" && !seen[t.ID()] {
+			ok := true
+			// patterns must not contain logical connectives or ite
+			var clean func(x *smt.Term) bool
+			clean = func(x *smt.Term) bool {
+				switch x.Op {
+				case "ite", "and", "or", "not", "=>", "=":
+					return false
+				}
+				for _, a := range x.Args {
+					if !clean(a) {
+						return false
+					}
+				}
+				return true
+			}
+			ok = clean(t)
+			if ok {
+				seen[t.ID()] = true
+				out = append(out, t)
+				return true
+			}
+		}
+		return false
+	}
+	walk(body)
+	if len(out) > 3 {
+		out = out[:3]
+	}
+	return out
+}
+
+func termHas(t, v *smt.Term) bool {
+	if t == v {
+		return true
+	}
+	for _, a := range t.Args {
+		if termHas(a, v) {
+			return true
+		}
+	}
+	return false
 }
